@@ -241,6 +241,11 @@ async fn run_tcp(c: &TcpCase) -> CaseResult {
             return Err(Fail::new("C19/resolver-args", format!("the resolver was asked for ({:?}, {}), expected (\"example.test\", {})", h, p, eff_port)));
         }
     }
+    // addresses of the returned stream, taken before the listeners reset their ends
+    let stream_addrs = result.as_ref().ok().map(|conn| (conn.io_ref().peer_addr(), conn.io_ref().local_addr()));
+    if let Ok(conn) = &result {
+        let _ = socket2::SockRef::from(conn.io_ref()).set_linger(Some(Duration::ZERO));
+    }
     // let the listeners see their connections
     tokio::time::sleep(Duration::from_millis(2)).await;
     let accepts: Vec<usize> = socks
@@ -248,7 +253,9 @@ async fn run_tcp(c: &TcpCase) -> CaseResult {
         .map(|s| match s {
             Sock::Live(l) => {
                 let mut k = 0;
-                while l.accept().is_ok() {
+                while let Ok((s, _)) = l.accept() {
+                    // close with RST: no TIME_WAIT (tens of thousands of cases would exhaust the ports)
+                    let _ = socket2::SockRef::from(&s).set_linger(Some(Duration::ZERO));
                     k += 1;
                 }
                 k
@@ -266,11 +273,12 @@ async fn run_tcp(c: &TcpCase) -> CaseResult {
             let first_live = list.iter().position(is_live);
             match (first_live, res) {
                 (Some(k), Ok(conn)) => {
-                    let peer = conn.io_ref().peer_addr().map_err(|e| Fail::new("C19/peer", format!("{e}")))?;
+                    let (peer, local) = stream_addrs.as_ref().map(|(p, l)| (p.as_ref().ok().copied(), l.as_ref().ok().copied())).unwrap_or((None, None));
+                    let Some(peer) = peer else { return Err(Fail::new("harness/peer", "cannot read the peer address of the returned stream")) };
                     if peer != list[k] {
                         return Err(Fail::new("C19/wrong-address", format!("connected to {} but the first address of {:?} that accepts connections is {} (host {:?}, preset {:?})", peer, list, list[k], host, c.preset)));
                     }
-                    if c.local_addr && conn.io_ref().local_addr().map(|a| a.ip()).ok() != Some(IpAddr::V4(Ipv4Addr::LOCALHOST)) {
+                    if c.local_addr && local.map(|a| a.ip()) != Some(IpAddr::V4(Ipv4Addr::LOCALHOST)) {
                         return Err(Fail::new("C19/local-addr", "the requested local bind address was not used"));
                     }
                     // no address after the successful one was dialled; the successful one exactly once per occurrence
@@ -292,6 +300,10 @@ async fn run_tcp(c: &TcpCase) -> CaseResult {
                     }
                 }
                 (None, Err(ConnectError::Io(e))) => {
+                    if matches!(e.kind(), std::io::ErrorKind::AddrInUse | std::io::ErrorKind::AddrNotAvailable) {
+                        // the machine ran out of ephemeral ports: the harness cannot judge this case
+                        return Err(Fail::new("harness/ports", format!("connect failed with {:?}: ephemeral ports exhausted", e.kind())));
+                    }
                     if !list.iter().all(|a| a.port() == 0) && e.kind() != std::io::ErrorKind::ConnectionRefused {
                         return Err(Fail::new("C19/last-error", format!("all addresses {:?} refuse connections, yet the error is {:?}", list, e.kind())));
                     }
